@@ -315,7 +315,7 @@ def check_C12(tier, replay):
         "traces_validated_against_impl": len(jobs) if ok else 0,
         "samples": [{"job": jobs[0]["id"], "policy": jobs[0]["policy"], "cap": jobs[0]["cap"]},
                     {"job": jobs[-1]["id"], "schedule_prefix": jobs[-1]["policy"]["steps"][:12]}],
-        "evaluations": len(jobs), "tlc_schedules_replayed": nsched, "replay_drift_steps": drift,
+        "evaluations": len(jobs), "tlc_schedules_replayed": nsched, "replay_drift": f"{drift} scheduled steps not enabled",
         "ops_checked": res["ops"], "reveals_checked": res4["checked"], "mc_runs": mcs,
         "rule": "every run is one real mpc() execution under a scheduler that decides each send/receive completion; "
                 "Mon_C12 checks termination, results, FIFO pairing, queue bound, one outstanding op per peer/direction",
